@@ -36,7 +36,18 @@ LEVELS = {"plus": ["+"], "cat": [" "], "add": ["+", "-"], "mul": ["*", "/", "%"]
 CHAIN_FAMILIES = ["left:%s" % v for v in LEVELS if len(LEVELS[v]) > 1] + ["free:%s" % v for v in LEVELS]
 PAD_SHAPES = [(1, 1), (3, 4), (9, 8)]
 PAD_FAMILIES = ["recurpad:%d,%d,%d" % (a, p, k) for (a, p) in PAD_SHAPES for k in range(4 + a + p)]
-FAMILIES += CHAIN_FAMILIES + PAD_FAMILIES
+#   recurvar:N,A,K               the same through a VARIADIC function `f(n, q1..q(N-1), ...)` with N named parameters called
+#                                with A arguments: A < N leaves named parameters out (nil padding), A > N passes extras;
+#                                hawk_rtx_evalcall reserves 4 + max(A, N) slots either way
+VAR_SHAPES = [(4, 1), (8, 1), (6, 3), (2, 5)]
+VAR_FAMILIES = ["recurvar:%d,%d,%d" % (nn, a, k) for (nn, a) in VAR_SHAPES for k in range(4 + max(nn, a))]
+#   exitrec:D / exitblk:D        a HISTORY in one run: BEGIN dives D calls deep and leaves by `exit`; the END block then
+#                                recurses n deep (exitrec) or nests n blocks (exitblk).  Each phase alone is what the
+#                                `recur` / `block` family does: the first phase must not change what the second may do.
+PHASE1_DEPTHS = [2, 20, 200]
+HIST_FAMILIES = ["exitrec:%d" % d for d in PHASE1_DEPTHS] + ["exitblk:%d" % d for d in PHASE1_DEPTHS]
+TWO_PHASE_ALONE = {"exitrec": "recur", "exitblk": "block"}
+FAMILIES += CHAIN_FAMILIES + PAD_FAMILIES + VAR_FAMILIES + HIST_FAMILIES
 
 
 def base_of(fam):
@@ -52,9 +63,17 @@ def pad_params(fam):
     return a, p, k
 
 
+def var_params(fam):
+    nn, a, k = (int(x) for x in var_of(fam).split(","))
+    return nn, a, k
+
+
 def model_family(fam):
     """name of the family in the Lean driver"""
     b = base_of(fam)
+    if b == "recurvar":
+        nn, a, k = var_params(fam)
+        return "recurpad:%d,%d,%d" % (a, max(0, nn - a), k)     # frame = 4 + actual + padding = 4 + max(actual, named)
     return {"left": "left", "free": "chainfree"}.get(b, fam)
 
 
@@ -107,6 +126,18 @@ def gen_program(fam, n):
         params = ["n"] + ["a%d" % i for i in range(1, A)] + ["p%d" % i for i in range(P)]
         args = "".join(", %d" % i for i in range(1, A))
         return g + "function f(%s) { if (n<=0) return 0; return 1+f(n-1%s) } BEGIN { print f(%d%s) }\n" % (", ".join(params), args, n, args)
+    if b == "recurvar":
+        NN, A, K = var_params(fam)
+        g = ("@global " + ", ".join("g%d" % i for i in range(K)) + ";\n") if K else ""
+        params = ["n"] + ["q%d" % i for i in range(1, NN)] + ["..."]
+        args = "".join(", %d" % i for i in range(1, A))
+        return g + "function f(%s) { if (n<=0) return 0; return 1+f(n-1%s) } BEGIN { print f(%d%s) }\n" % (", ".join(params), args, n, args)
+    if b in ("exitrec", "exitblk"):
+        D = int(var_of(fam))
+        dive = "function dive(n) { if (n<=0) exit 0; return 1+dive(n-1) }\n"
+        if b == "exitrec":
+            return dive + "function sum(n) { if (n<=0) return 0; return 1+sum(n-1) }\nBEGIN { x = dive(%d) }\nEND { print sum(%d) }\n" % (D, n)
+        return dive + "BEGIN { x = dive(%d) }\nEND { " % D + "{" * n + "y=1;" + "}" * n + " print y }\n"
     if fam == "paren":   return "BEGIN { a=1; x = " + "(" * n + "a" + ")" * n + "; print x }\n"
     if fam == "unary":   return "BEGIN { a=1; x = " + "- " * n + "a; print x }\n"
     if fam == "not":     return "BEGIN { a=1; x = " + "!" * n + "a; print x }\n"
@@ -151,8 +182,10 @@ def expected_output(fam, n):
         return str(n + 1) if ops == [" "] else str(chain_value(ops, n))
     if b == "free":
         return "1"
-    if b == "recurpad":
+    if b in ("recurpad", "recurvar", "exitrec"):
         return str(n)
+    if b == "exitblk":
+        return "1"
     if fam in ("paren", "assign", "block", "if", "elseif", "while", "index", "call", "regex", "seq"):
         return "1"
     if fam == "unary":
@@ -179,6 +212,7 @@ GOVERN = {
     "ternary": ["ep", "er"], "block": ["bp", "br"], "index": ["ep", "er"], "call": ["ep", "er"], "recur": ["br", "er"],
     "dollar": ["ep", "er"], "getline": ["ep", "er"], "pipe": ["ep", "er"], "incl": ["incl"],
     "if": [], "elseif": [], "while": [], "map": [], "regex": [], "seq": [], "free": [], "recurpad": ["br", "er"],
+    "recurvar": ["br", "er"], "exitrec": ["br", "er"], "exitblk": ["bp", "br"],
 }
 # nesting that does not depend on n: with every limit at least this, the family must run whatever n is
 CONSTANT_NESTING = {"seq": 5}
@@ -195,6 +229,11 @@ def stack_per_level(fam):
     if b == "recurpad":
         A, P, K = pad_params(fam)
         return 4 + A + P
+    if b == "recurvar":
+        NN, A, K = var_params(fam)
+        return 4 + max(NN, A)
+    if b == "exitrec":
+        return 5
     return None
 
 
@@ -205,6 +244,8 @@ def stack_eff_of(cfg, e):
 # the limit that bounds the parser's own recursion for a family (none: the parser does not recurse per level)
 PARSE_GOV = {"paren": "ep", "unary": "ep", "not": "ep", "assign": "ep", "ternary": "ep", "index": "ep", "call": "ep",
              "dollar": "ep", "getline": "ep", "pipe": "ep", "block": "bp", "incl": "incl"}
+for _d in PHASE1_DEPTHS:
+    PARSE_GOV["exitblk:%d" % _d] = "bp"
 
 ERR_NEST = {30: "block", 31: "expr", 87: "incl", 90: "stack"}
 KIND2OBS = {"incl": (87, "parse"), "block_parse": (30, "parse"), "expr_parse": (31, "parse"),
@@ -365,8 +406,10 @@ def max_depth(fam, cfg, tier):
         return 100000 if cfg.name in ("cli", "small") else 3000
     if base_of(fam) == "free":
         return 1000000                                       # never evaluated: only the parser's loop and the destructor see it
-    if base_of(fam) == "recurpad":
+    if base_of(fam) in ("recurpad", "recurvar"):
         return 12000
+    if base_of(fam) in ("exitrec", "exitblk"):
+        return 3000
     if fam == "pipe" and (cfg.ep == 0):
         return 60                                            # every accepted level starts a shell
     # with the governing limit switched off (0) the property promises nothing beyond what the native stack takes:
@@ -403,18 +446,27 @@ def boundary_depths(fam, cfg, dfl):
     return out
 
 
-def cfg_applies(fam, cfg, quick):
+def cfg_applies(fam, cfg, quick, dfl):
     """which configurations a family is run under (the variant families would multiply the quick tier otherwise)"""
     b = base_of(fam)
     if fam == "incl" and cfg.pragma:
         return False
     if b in ("left", "free") and var_of(fam):
         return cfg.name in ("cli", "small") if quick else True
-    if b == "recurpad":
-        A, P, K = pad_params(fam)
+    if b in ("exitrec", "exitblk"):
+        # the first phase must itself be within the limits of the configuration, else the run ends there
+        D = int(var_of(fam))
+        e = cfg.eff(dfl)
+        if (e["er"] and 2 * D + 6 > e["er"]) or (e["br"] and D + 3 > e["br"]) or 26 + 5 * D + 10 > stack_eff_of(cfg, e):
+            return False
+        return cfg.name != "bigstack"
+    if b in ("recurpad", "recurvar"):
+        K = pad_params(fam)[2] if b == "recurpad" else var_params(fam)[2]
         if cfg.name == "bigstack":
             return False
         if quick:
+            if b == "recurvar":
+                return cfg.name == "nodepth512" or (K == 0 and cfg.name in ("cli", "pragmamin"))
             return cfg.name in ("cli", "nodepth512") or (K == 0 and cfg.name in ("small", "pragmamin", "pragma2", "runonly"))
     return True
 
@@ -441,10 +493,10 @@ def make_cases(ctx, dfl):
     cases = {}
     for cfg in cfgs:
         for fam in FAMILIES:
-            if not cfg_applies(fam, cfg, quick):
+            if not cfg_applies(fam, cfg, quick, dfl):
                 continue
             mx = max_depth(fam, cfg, ctx.tier)
-            if base_of(fam) == "recurpad" and quick:
+            if base_of(fam) in ("recurpad", "recurvar") and quick:
                 # the alignment sweep: only the depths around the capacity of the value stack (and of the depth limits)
                 for n in sorted(set(b for b in boundary_depths(fam, cfg, dfl) if b <= mx) | {1, 10}):
                     c = Case(fam, n, cfg)
@@ -458,9 +510,14 @@ def make_cases(ctx, dfl):
             steps |= set(b for b in boundary_depths(fam, cfg, dfl) if b <= mx)
             for _ in range(2 if quick else 5):
                 steps.add(ctx.rng.randrange(1, min(mx, 700) + 1))
+            if base_of(fam) in TWO_PHASE_ALONE:
+                steps.add(0)                                  # the first phase with an empty second one
             for n in sorted(steps):
                 c = Case(fam, n, cfg)
                 cases[c.key()] = c
+                if base_of(fam) in TWO_PHASE_ALONE and n > 0:
+                    a = Case(TWO_PHASE_ALONE[base_of(fam)], n, cfg)      # the second phase alone, for the history oracle
+                    cases.setdefault(a.key(), a)
     return list(cases.values()), cfgs
 
 
@@ -469,7 +526,7 @@ def make_cases(ctx, dfl):
 # ----------------------------------------------------------------------------------------------------------
 def sig_fam(fam):
     """family part of a finding signature: the alignment sweep of recurpad is one class, an operator level is its own"""
-    return base_of(fam) if base_of(fam) == "recurpad" else fam
+    return base_of(fam) if base_of(fam) in ("recurpad", "recurvar", "exitrec", "exitblk") else fam
 
 
 def crash_sig(case, r):
@@ -537,6 +594,116 @@ def oracle_monotone(group):
                 c.fam, c.cfg.text(), first_rej.n, obs_text(first_rej.res), c.n), "not-monotone:%s" % c.fam))
             break
     return probs
+
+
+def oracle_history(cases):
+    """a first phase that was accepted and left by `exit` must not change the outcome of the second phase:
+    real code against real code (two-phase run vs the second phase alone), no model involved"""
+    by = {c.key(): c for c in cases}
+    probs = []
+    for c in cases:
+        b = base_of(c.fam)
+        if b not in TWO_PHASE_ALONE or c.n == 0:
+            continue
+        first = by.get((c.fam, 0, c.cfg.name))
+        alone = by.get((TWO_PHASE_ALONE[b], c.n, c.cfg.name))
+        if first is None or alone is None or first.res["cls"] != "ok" or alone.res["cls"] not in ("ok", "err"):
+            continue
+        if impl_obs(alone.res) != impl_obs(c.res) and c.res["cls"] in ("ok", "err"):
+            probs.append((c, "history breaks the limits: after a first phase %s deep that is accepted on its own and left by exit, the END part nested %d deep gives %s "
+                          "under %s, but the same END part alone (%s family) gives %s" % (
+                              var_of(c.fam), c.n, obs_text(c.res), c.cfg.text(), TWO_PHASE_ALONE[b], obs_text(alone.res)), "history:%s" % b))
+    return probs
+
+
+# ----------------------------------------------------------------------------------------------------------
+# API histories: one runtime context, several calls, some of them stopped by an error under nesting
+# ----------------------------------------------------------------------------------------------------------
+API_PROG = ("function sum(n) { if (n<=0) return 0; return 1+sum(n-1) }\n"
+            "function blk(n) { if (n<=0) return 0; { { return 1+blk(n-1) } } }\n"
+            "function runaway(n) { return 1+runaway(n+1) }\n"
+            "function diverr(n) { if (n<=0) { z = 0; return 1/z; } return 1+diverr(n-1) }\n")
+API_DEPTHS = [1, 3, 10, 30, 60, 98, 99, 100, 120, 240, 248, 249]
+
+
+def api_seq(n):
+    m = max(1, n // 3)
+    return ["sum:%d" % n, "runaway:0", "sum:%d" % n, "diverr:7", "sum:%d" % n, "blk:%d" % m, "runaway:0", "blk:%d" % m]
+
+
+def api_eligible(cfg, dfl):
+    """some finite limit must stop runaway() before the native stack does (about 2500 levels are safe)"""
+    e = cfg.eff(dfl)
+    bounds = [stack_eff_of(cfg, e) // 5] + ([e["er"] // 2] if e["er"] else []) + ([e["br"]] if e["br"] else [])
+    return min(bounds) <= 2500
+
+
+def api_source(wd, cfg):
+    """the program file of a configuration (written once, before the runs are spread over threads)"""
+    src = os.path.join(wd, "api-%s.hawk" % cfg.name)
+    if not os.path.exists(src):
+        tmp = src + ".tmp%d" % os.getpid()
+        with open(tmp, "w") as f:
+            for p in cfg.pragma:
+                f.write("@pragma stack_limit %d;\n" % p)
+            f.write(API_PROG)
+        os.replace(tmp, src)
+    return src
+
+
+def run_api(exe, wd, n, cfg, dfl, san=False):
+    src = api_source(wd, cfg)
+    e = cfg.eff(dfl)
+    env = {k: v for k, v in (C.ASAN_ENV if san else os.environ).items() if not k.startswith("C14_")}
+    env.update(C14_INCL=str(e["incl"]), C14_BLOCK_PARSE=str(e["bp"]), C14_BLOCK_RUN=str(e["br"]), C14_EXPR_PARSE=str(e["ep"]),
+               C14_EXPR_RUN=str(e["er"]), C14_STACK_LIMIT=str(e["stack"]), LC_ALL="C.UTF-8")
+    p = subprocess.Popen(limited_cmd([exe, "--c14-api", src] + api_seq(n), None if san else (3 << 30)), cwd=wd, env=env,
+                         stdin=subprocess.DEVNULL, stdout=subprocess.PIPE, stderr=subprocess.PIPE, start_new_session=True)
+    try:
+        out, err = p.communicate(timeout=60 if san else 30)
+        rc = p.returncode
+    except subprocess.TimeoutExpired:
+        try:
+            os.killpg(p.pid, 9)
+        except ProcessLookupError:
+            pass
+        out, err = p.communicate()
+        rc = -999
+    out, err = out.decode(errors="replace"), err.decode(errors="replace")
+    calls = []
+    for l in out.split("\n"):
+        m = re.match(r"call (\d+) (\w+) (ok|err) (\S+)", l)
+        if m:
+            calls.append((m.group(3), m.group(4)))
+    return dict(rc=rc, calls=calls, out=out[-400:], err=err[-500:], asan=("AddressSanitizer" in err or "runtime error:" in err))
+
+
+def oracle_api(n, cfg, r):
+    """what an embedding application may rely on: a call stopped by an error leaves the runtime as it found it"""
+    seq = api_seq(n)
+    where = "one rtx, calls %s under %s" % (" ".join(seq), cfg.text())
+    if r["asan"] or r["rc"] < 0 or r["rc"] == -999 or len(r["calls"]) != len(seq):
+        return "%s: %s" % (where, "sanitizer report" if r["asan"] else ("rc %d, %d of %d calls answered" % (r["rc"], len(r["calls"]), len(seq))))
+    c = r["calls"]
+    for i in (1, 6):
+        if not (c[i][0] == "err" and int(c[i][1]) in ERR_NEST):
+            return "%s: runaway recursion (call %d) was not stopped by a nesting/stack error: %s %s" % (where, i + 1, c[i][0], c[i][1])
+    if c[3][0] != "err":
+        return "%s: call 4 should fail" % where
+    for i, j in ((0, 2), (0, 4), (5, 7)):
+        if c[i] != c[j]:
+            return ("%s: call %d (%s) answers `%s %s` but the identical call %d, made after another call was stopped by an error under nesting, answers `%s %s`" % (
+                where, i + 1, seq[i], c[i][0], c[i][1], j + 1, c[j][0], c[j][1]))
+    return None
+
+
+def api_replay(n, cfg, r, dfl):
+    e = cfg.eff(dfl)
+    envs = "C14_INCL=%d C14_BLOCK_PARSE=%d C14_BLOCK_RUN=%d C14_EXPR_PARSE=%d C14_EXPR_RUN=%d C14_STACK_LIMIT=%d" % (
+        e["incl"], e["bp"], e["br"], e["ep"], e["er"], e["stack"])
+    return ("api %d %s\n# program (file api.hawk):\n%s%s# run: %s <harness/depth_h.c built against the tree> --c14-api api.hawk %s\n# output:\n%s\n# stderr: %s\n" % (
+        n, cfg.text(), "".join("@pragma stack_limit %d;\n" % p for p in cfg.pragma), API_PROG, envs, " ".join(api_seq(n)),
+        r["out"], r["err"][-300:].replace("\n", " | ")))
 
 
 def model_obs(mline):
@@ -620,6 +787,12 @@ def graph_findings(ctx, g, d):
                                 "theorem residual_edges_known fails)" % (grp, txt),
                                 "# python3 extract/callgraph.py --repo %s --sites | grep -F '%s'\n# id %d\n" % (C.REPO, txt.split(" [")[0], i),
                                 found_input=False, sig="new-residual-site:%d" % i)
+    for fn, ctr, flag in g.get("incdec", []):
+        if flag == 0:
+            ctx.problem("impl", "%s(): a return/goto lies between %s++ and %s--: the depth counter stays too high when that exit is taken "
+                        "(theorem counters_balanced_in_code fails)" % (fn, ctr, ctr),
+                        "# python3 extract/callgraph.py --repo %s  -> incDecPairs in lean/HawkModel/Gen/CallGraph.lean: (%s, %s, 0)\n" % (C.REPO, fn, ctr),
+                        found_input=False, sig="counter-leak-idiom:%s" % fn)
     for i, f in enumerate(CG.LIMIT_FIELDS):
         if f not in g["limits_read"]:
             setby = "the CLI sets it to %d" % d["cli"][f] if d["cli"][f] else "hawk_setopt() accepts it (the CLI leaves it 0)"
@@ -717,6 +890,25 @@ def run(ctx):
         evals += 1
         if rc < 0 or rc in (132, 134, 135, 136, 137, 139):     # killed by a signal (hawk itself exits with 255 on an error)
             ctx.problem("impl", "corpus program crashes (rc %d): %s" % (rc, prog[:200]), "prog " + prog + "\n", found_input=True, sig="crash:corpus")
+    # API histories (plain build, and the harness with a sanitized run.c in the quick tier)
+    api_runs = [(n, cfg, False) for cfg in cfgs if api_eligible(cfg, d) for n in API_DEPTHS]
+    san_exe = asan_build.result() if asan_build is not None else (sexe if ctx.tier == "thorough" else None)
+    if san_exe is not None:
+        api_runs += [(n, cfg, True) for (n, cfg, _) in list(api_runs)]
+    for cfg in cfgs:
+        api_source(wd, cfg)
+    t = time.time()
+    with concurrent.futures.ThreadPoolExecutor(max_workers=8) as ex:
+        api_res = list(ex.map(lambda a: run_api(san_exe if a[2] else exe, wd, a[0], a[1], d, san=a[2]), api_runs))
+    evals += len(api_runs)
+    api_bad = 0
+    for (n, cfg, san), r in zip(api_runs, api_res):
+        what = oracle_api(n, cfg, r)
+        if what:
+            api_bad += 1
+            if api_bad == 1:
+                ctx.problem("impl", "history on one runtime context: " + what, api_replay(n, cfg, r, d), found_input=True, sig="api-history")
+    ctx.log("ran %d API histories in %.1fs (%d refused by the oracle)" % (len(api_runs), time.time() - t, api_bad))
     # the self-including file: infinitely deep
     sc = Case("incl", -1, by_name["cli"])
     sc.res = run_case(exe, wd, sc)
@@ -749,6 +941,11 @@ def run(ctx):
                     rep = s
                     what += " (smallest depth found that still does: %d)" % s.n
             ctx.problem("impl", what, replay_text(rep, rep.res), found_input=True, sig=sig)
+    for c, what, sig in oracle_history(cases):
+        oracle_hits += 1
+        if sig not in reported:
+            reported.add(sig)
+            ctx.problem("impl", what, replay_text(c, c.res), found_input=True, sig=sig)
     for key, grp in groups.items():
         for c, what, sig in oracle_monotone(grp):
             oracle_hits += 1
@@ -815,6 +1012,17 @@ def replay(ctx, path):
     os.makedirs(wd, exist_ok=True)
     bad = 0
     for l in open(path):
+        m = re.match(r"api (\d+) (\w+)\((.*)\)\s*$", l.strip())
+        if m:
+            kv = dict(x.split("=", 1) for x in m.group(3).split() if "=" in x)
+            g = lambda k: int(kv[k]) if k in kv else None
+            cfg = Cfg(m.group(2), incl=g("C14_INCL"), bp=g("C14_BLOCK_PARSE"), br=g("C14_BLOCK_RUN"), ep=g("C14_EXPR_PARSE"), er=g("C14_EXPR_RUN"),
+                      stack=g("C14_STACK_LIMIT"), pragma=tuple(int(x) for x in kv["pragma"].split(",")) if "pragma" in kv else ())
+            r = run_api(exe, wd, int(m.group(1)), cfg, d)
+            what = oracle_api(int(m.group(1)), cfg, r)
+            print("%s\n%s   oracle: %s" % (l.strip(), r["out"], what or "clean"))
+            bad += 1 if what else 0
+            continue
         if l.startswith("prog "):
             prog = l.split(None, 1)[1].rstrip("\n")
             rc, out, err = C.sh(["timeout", "-s", "KILL", "20", exe, prog], timeout=30, cwd=wd)
